@@ -1,11 +1,82 @@
 import TdVerif.Sexp
+import TdVerif.Model.C10Memmap
 
 namespace TdVerif.Drive
-open TdVerif Sexp
+open TdVerif Sexp TdVerif.C10
+open TdVerif.C12 (Slots runWrites)
+
+namespace C10D
+
+partial def tree? : Sexp → Option Tree
+  | .list [.atom "l", .atom d, .list sh, .list b] => do pure (.leaf d (← nats? sh) (← nats? b))
+  | .list [.atom "nt", .atom d, .list b] => do pure (.nontensor d (← nats? b))
+  | .list (.atom "n" :: .list b :: .atom dev :: kids) => do
+    let b ← nats? b
+    let kids ← kids.mapM fun k => match k with
+      | Sexp.list [Sexp.atom key, t] => (tree? t).map fun t' => (key, t')
+      | _ => none
+    pure (.node b dev kids)
+  | _ => none
+
+partial def treeSx : Tree → Sexp
+  | .leaf d s b => .list [.atom "l", .atom d, ofNats s, ofNats b]
+  | .nontensor d b => .list [.atom "nt", .atom d, ofNats b]
+  | .node b dev kids => .list (.atom "n" :: ofNats b :: .atom dev :: kids.map fun (k, t) => .list [.atom k, treeSx t])
+
+def entrySx : String × MetaEntry → Sexp
+  | (k, .leaf d s) => .list [.atom k, .atom "leaf", .atom d, ofNats s]
+  | (k, .coll t) => .list [.atom k, .atom "coll", .atom t]
+
+def fileSx : File → Sexp
+  | .bytes b => .list [.atom "bytes", ofNat b.length]
+  | .json m =>
+    if m.kind = "NonTensorData" then .list [.atom "meta", .atom m.kind, .atom (m.payload.getD "none")]
+    else .list [.atom "meta", .atom m.kind, ofNats m.batch, .atom m.device, .list (m.entries.map entrySx)]
+
+def pathSx (p : Path) : Sexp := .list (p.map .atom)
+
+/-- the cells of `fs` at the given candidate paths (deduplicated, in order of first appearance) -/
+def listing (fs : FS) (paths : List Path) : Sexp :=
+  .list ((paths.eraseDups).filterMap fun p => (fs p).map fun f => .list [pathSx p, fileSx f])
+
+def optTreeSx : Option Tree → Sexp
+  | some t => treeSx t
+  | none => .atom "none"
+
+end C10D
+open C10D
 
 /-- line-protocol handler for C10: commands are named `c10.<something>` -/
 def handleC10 (cmd : String) (args : List Sexp) : Option Sexp :=
   match cmd, args with
+  -- (c10.save tree (order…)) -> (tasks-in-submission-order listing loaded)
+  | "c10.save", [t, .list order] => do
+      let t ← tree? t; let order ← nats? order
+      let ts := tasksTree [] t
+      let perm := if order.isEmpty then ts else order.filterMap fun i => ts[i]?
+      let fs := runTasks (fun _ => none) perm
+      pure (.list [.list (ts.map fun x => pathSx x.1), listing fs (ts.map (·.1)), optTreeSx (load (depth t) fs [])])
+  -- (c10.like tree) -> (listing loaded)
+  | "c10.like", [t] => do
+      let t ← tree? t
+      let ts := tasksTree [] (likeTree t)
+      let fs := runTasks (fun _ => none) ts
+      pure (.list [listing fs (ts.map (·.1)), optTreeSx (load (depth t) fs [])])
+  -- (c10.make tree (dir…) key dtype (shape) nbytes) -> (listing loaded) after make_memmap on the saved directory
+  | "c10.make", [t, .list dir, .atom key, .atom dt, .list sh, nb] => do
+      let t ← tree? t; let dir ← dir.mapM asAtom?; let sh ← nats? sh; let nb ← asNat? nb
+      let ts := tasksTree [] t
+      let fs := runTasks (fun _ => none) ts
+      match makeMemmap fs dir key dt sh nb with
+      | none => pure (.atom "none")
+      | some fs' =>
+        let paths := ts.map (·.1) ++ [dir ++ [key ++ ".memmap"]]
+        pure (.list [listing fs' paths, optTreeSx (load (depth t + 1) fs' [])])
+  -- (c10.write tree (dir…) key (bytes…)) -> loaded after an in-place write through a mapping
+  | "c10.write", [t, .list dir, .atom key, .list b] => do
+      let t ← tree? t; let dir ← dir.mapM asAtom?; let b ← nats? b
+      let fs := runTasks (fun _ => none) (tasksTree [] t)
+      pure (optTreeSx (load (depth t) (writeLeaf fs dir key b) []))
   | _, _ => none
 
 end TdVerif.Drive
